@@ -3,6 +3,7 @@
   Statements are FIXED: prove them exactly as stated (helper lemmas go above them or in Cgp/Proofs/C12.lean).
 -/
 import Cgp.Token
+import Cgp.Toy
 namespace Cgp.Props.C12
 open Cgp Cgp.Xdr Cgp.Token
 
@@ -938,5 +939,67 @@ theorem transferOwnership_exact (st st' : State) (c : Ctx) (new : Addr) (evs : L
 example : ∃ st' evs, transfer { (construct ⟨true, [1]⟩ none) with bal := fun _ => 5 }
     ⟨[⟨true, [2]⟩], 0, 0⟩ ⟨true, [2]⟩ ⟨true, [3]⟩ 5 = .ok (st', evs) := by
   simp [transfer, spendBalance, receiveBalance, construct, i128Max]
+
+/-! ### non-vacuity (the model RUN in the kernel on a concrete history) -/
+section NonVacuity
+open Cgp.Toy
+
+def minterB : Addr := ⟨true, List.replicate 32 8⟩
+def alice : Addr := ⟨false, List.replicate 32 11⟩
+def bob : Addr := ⟨false, List.replicate 32 12⟩
+def carol : Addr := ⟨false, List.replicate 32 13⟩
+def accts : List Addr := [alice, bob, carol]
+/-- a freshly constructed token: owner `owner0`, designated minter `minterB` -/
+def st0 : State := construct owner0 (some minterB)
+/-- ledger 10, host TTL limit 100 -/
+def ctxOf (a : Addr) : Ctx := ⟨[a], 10, 100⟩
+def opsK : List (Ctx × Op) :=
+  [ (ctxOf owner0, .mint alice 100),                         -- the owner mints
+    (ctxOf minterB, .mintFrom minterB bob 50),               -- the designated minter mints
+    (ctxOf alice, .transfer alice bob 30),
+    (ctxOf alice, .approve alice carol 40 20),               -- allowance 40 until ledger 20
+    (ctxOf carol, .transferFrom carol alice bob 25),         -- allowance 15 left
+    (ctxOf bob, .burn bob 5),
+    (ctxOf alice, .transfer alice bob 1000),                 -- overdraft: refused
+    (ctxOf carol, .transferFrom carol alice bob 20),         -- more than the allowance left: refused
+    (ctxOf carol, .burnFrom carol alice 10),                 -- allowance 5 left
+    (ctxOf alice, .mint alice 5),                            -- not the owner's authorisation: refused
+    (ctxOf carol, .mintFrom carol carol 5),                  -- not a minter: refused
+    (ctxOf alice, .transfer alice bob (-1)),                 -- negative amount: refused
+    (ctxOf bob, .transfer alice bob 1),                      -- not the holder's authorisation: refused
+    (⟨[carol], 21, 100⟩, .transferFrom carol alice bob 5), -- after the expiration ledger: refused
+    (ctxOf alice, .addMinter carol),                         -- not the owner: refused
+    (ctxOf owner0, .addMinter carol),
+    (ctxOf owner0, .transferOwnership alice) ]
+/-- what each call of a history returned: `none` = success -/
+def outcomes (st : State) : List (Ctx × Op) → List (Option Err)
+  | [] => []
+  | (c, op) :: rest =>
+    (match (step st c op).2 with | .ok _ => none | .error e => some e) :: outcomes (step st c op).1 rest
+
+/-- the hypotheses of `supply_run` and `nonneg_run` are satisfiable and the supply equation is not `0 = 0`: a history from
+    construction with two mints (100 + 50), a transfer, an approval, a delegated transfer, a burn (5), a delegated burn (10) and
+    eight refused calls (overdraft, allowance exceeded, allowance expired, missing authorisations, non-minter, negative
+    amount).  Σ balances = 135 = supply change; no balance or allowance is negative; the minter set and the owner changed only
+    by the owner's own calls (`roles_step`: both alternatives occur). -/
+theorem token_history_nonvacuous :
+    NonNeg st0 ∧
+    accts.Nodup ∧ (∀ p ∈ opsK, ∀ a ∈ Op.accounts p.2, a ∈ accts) ∧
+    outcomes st0 opsK =
+      [none, none, none, none, none, none, some .insufficientBalance, some .insufficientAllowance, none, some .unauthorized,
+       some .notMinter, some .invalidAmount, some .unauthorized, some .insufficientAllowance, some .unauthorized, none, none] ∧
+    total st0 accts = 0 ∧ supplyChange st0 opsK = 135 ∧ total (run st0 opsK) accts = 135 ∧
+    accts.map (run st0 opsK).bal = [35, 100, 0] ∧
+    (run st0 opsK).allow alice carol = some ⟨5, 20⟩ ∧
+    (readAllowance (run st0 opsK) 20 alice carol).amount = 5 ∧ (readAllowance (run st0 opsK) 21 alice carol).amount = 0 ∧
+    [owner0, minterB, carol, alice].map st0.minter = [true, true, false, false] ∧
+    [owner0, minterB, carol, alice].map (run st0 opsK).minter = [true, true, true, false] ∧
+    st0.owner = owner0 ∧ (run st0 opsK).owner = alice ∧
+    -- a refused call of `rejected_no_effect` / `insufficient_balance_rejected`: the balance really is too small
+    (run st0 (opsK.take 6)).bal alice < 1000 := by
+  refine ⟨nonneg_construct _ _, ?_⟩
+  decide +kernel
+
+end NonVacuity
 
 end Cgp.Props.C12
